@@ -100,6 +100,7 @@ type Node struct {
 	conf    pb.ConfState            // conf state at applied
 	applied []int                   // payload ids applied since (re)start, for debugging
 	ccFail  int
+	held    *raft.Ready // a Ready that was saved, applied and sent but not yet passed to Advance (the window in which node.run keeps stepping)
 }
 
 type Cluster struct {
@@ -112,6 +113,7 @@ type Cluster struct {
 	stats        map[string]int
 	panics       []string
 	panicsLogged int
+	holdNext     bool // the event being executed leaves its first Ready outstanding
 }
 
 func genesis(opt Options) pb.ConfState {
@@ -191,6 +193,7 @@ func (c *Cluster) guarded(n *Node, f func()) (panicked bool) {
 			msg := fmt.Sprint(r)
 			c.panics = append(c.panics, fmt.Sprintf("line %d node %d: %s", c.line+1, n.id, msg))
 			n.rn = nil
+			n.held = nil
 			c.stats["panic"]++
 		}
 	}()
@@ -232,6 +235,9 @@ func payloadOf(e pb.Entry) int {
 
 // ready runs the Ready/persist/apply/Advance cycle of n until nothing is pending.
 func (c *Cluster) ready(n *Node) {
+	if n.held != nil { // the application is still busy with the previous Ready: raft keeps stepping, nothing new is handed out
+		return
+	}
 	for iter := 0; n.rn != nil && n.rn.HasReady(); iter++ {
 		if iter > 64 {
 			panic("raftsim: Ready loop does not terminate")
@@ -278,6 +284,12 @@ func (c *Cluster) ready(n *Node) {
 		}
 		for _, m := range rd.Messages {
 			c.sendMsg(m)
+		}
+		if c.holdNext {
+			c.holdNext = false
+			c.stats["held"]++
+			n.held = &rd
+			return
 		}
 		n.rn.Advance(rd)
 	}
@@ -406,6 +418,7 @@ type NodeD struct {
 	SnapI   uint64 `json:"snapi"`
 	SnapT   uint64 `json:"snapt"`
 	Pr      []PrD  `json:"pr"`
+	Held    bool   `json:"held"`
 }
 
 func u64s(a []uint64) []uint64 {
@@ -421,7 +434,7 @@ func confD(cs pb.ConfState) ConfD {
 var roleName = map[raft.StateType]string{raft.StateFollower: "F", raft.StateCandidate: "C", raft.StateLeader: "L", raft.StatePreCandidate: "P"}
 
 func (c *Cluster) project(n *Node) NodeD {
-	d := NodeD{ID: n.id, Up: n.rn != nil, Log: []LogD{}, Pr: []PrD{}}
+	d := NodeD{ID: n.id, Up: n.rn != nil, Log: []LogD{}, Pr: []PrD{}, Held: n.held != nil}
 	ms := n.d.MemoryStorage
 	first, _ := ms.FirstIndex()
 	last, _ := ms.LastIndex()
@@ -490,6 +503,7 @@ type Event struct {
 	Idx  int    `json:"idx,omitempty"`  // compact index / crash: number of unsynced writes kept (-1 all)
 	A    int    `json:"a,omitempty"`    // partition: other side / bag position
 	Note string `json:"note,omitempty"` // result annotations
+	Hold bool   `json:"hold,omitempty"` // leave the first Ready this event produces outstanding (no Advance) until a "release"
 }
 
 type Line struct {
@@ -603,9 +617,22 @@ func ccFrom(d *CCD, id int) pb.ConfChangeI {
 func (c *Cluster) Do(e Event) bool {
 	n := c.node(e.Node)
 	ok := true
+	c.holdNext = e.Hold
+	defer func() { c.holdNext = false }()
 	switch e.Ev {
 	case "reset":
 		c.reset()
+	case "release": // Advance for the outstanding Ready, then whatever has piled up meanwhile
+		if n == nil || n.rn == nil || n.held == nil {
+			ok = false
+			break
+		}
+		c.guarded(n, func() {
+			rd := n.held
+			n.held = nil
+			n.rn.Advance(*rd)
+			c.ready(n)
+		})
 	case "campaign":
 		if n == nil || n.rn == nil {
 			ok = false
@@ -721,6 +748,7 @@ func (c *Cluster) Do(e Event) bool {
 			break
 		}
 		n.rn = nil
+		n.held = nil
 		keep := e.Idx
 		if keep < 0 || keep > len(n.d.unsynced) {
 			keep = len(n.d.unsynced)
